@@ -179,3 +179,23 @@ def suffix_from(q, oldq, off):
 def same_entries(d, oldd):
     """every key of d was in oldd with the same entry (timestamp and value)"""
     return forall((k, 'Un[K]'), k in d, k in oldd and d[k] == oldd[k])
+
+
+# ---------------------------------------------------------------- C19: reflection
+
+@spec
+def ntokens(s):
+    """number of space separated tokens of a summary ('' has none)"""
+    return ite(s == "", 0, len(s.split(" ")))
+
+
+@spec
+def no_space_in(xs):
+    return forall(i, 0 <= i < len(xs), not (" " in xs[i]))
+
+
+@spec
+def episode_id_of(agent, turn, slot, text):
+    """the reflection episode id as a function of (agent id, turn id, slot, text) only"""
+    return ("refl-" + turn + "-" + agent + "-" + str(slot) + "-" +
+            sha256_hex(agent + "|" + turn + "|" + str(slot) + "|" + text)[:12])
